@@ -4,7 +4,7 @@ CONSTANTS
   Big = TRUE
   PairScopes = {"trace"}
   Faithful = TRUE
-INVARIANTS TypeOK FirstMatch Decision AbsentNeverMatches SpanImpliesTrace DevOnlyOnAbsent
+INVARIANTS TypeOK FirstMatch Decision Delegation OwnSampler AbsentNeverMatches SpanImpliesTrace DevOnlyOnAbsent
 ACTION_CONSTRAINT Dump
 VIEW View
 CHECK_DEADLOCK FALSE
